@@ -118,7 +118,7 @@ func (cx *c20Ctx) optionCheck(op c20Option, tab *c20Table) {
 		v := st.ret[0]
 		nt, _ := v.typ.(*types.Named)
 		f := ""
-		for name, fv := range v.fields {
+		for name, fv := range st.fieldsOf(v) {
 			if c20IsInput(fv, "p0") {
 				f = name
 			}
